@@ -59,6 +59,16 @@ def shape_cat(s):
     return "struct" if k in ("struct", "root") else "inline" if k == "inline" else "coll"
 
 
+def shape_wcat(s):
+    """mirror of Shape.wcat (Sem/Alias.lean): the category a WRAPPER's row is looked up under — Tuple options apart"""
+    if isinstance(s, dict):
+        if "o" in s:
+            return shape_wcat(s["o"])
+        if s.get("c") == "tuple" or s.get("k") == "tuplePos":
+            return "tupl"
+    return shape_cat(s)
+
+
 def type_ok(d, v):
     """cheap 'could this option be the one that took the value' test (python type only)"""
     k = d["k"]
@@ -282,7 +292,7 @@ def fallback_shape(shape):
     first-fit choice, `(misfit, <category of the fixed option>)` with a fixed delegation"""
     if shape["pick"] == "first" or shape["pick"] >= len(shape["opts"]):
         return {"w": shape["wn"], "inner": "untyped"}
-    return {"w": "misfit", "inner": {"s": shape_cat(shape["opts"][shape["pick"]])}}
+    return {"w": "misfit", "inner": {"s": shape_wcat(shape["opts"][shape["pick"]])}}
 
 
 def site_chain_v(shape, v, path):
@@ -301,13 +311,13 @@ def site_chain_v(shape, v, path):
             i = py_pick(s, v)
             if i >= len(s["opts"]):
                 fb = fallback_shape(s)
-                chain.append((depth, fb["w"], shape_cat(fb["inner"])))
+                chain.append((depth, fb["w"], shape_wcat(fb["inner"])))
                 return chain
-            chain.append((depth, s["wn"], shape_cat(s["opts"][i])))
+            chain.append((depth, s["wn"], shape_wcat(s["opts"][i])))
             s = s["opts"][i]
             continue
         if "w" in s:
-            chain.append((depth, s["w"], shape_cat(s["inner"])))
+            chain.append((depth, s["w"], shape_wcat(s["inner"])))
             s = s["inner"]
             continue
         if "c" in s:
@@ -468,7 +478,7 @@ def site_chain(shape, path):
         if "s" in s:
             return chain
         if "w" in s:
-            chain.append((depth, s["w"], shape_cat(s["inner"])))
+            chain.append((depth, s["w"], shape_wcat(s["inner"])))
             s = s["inner"]
             continue
         if "c" in s:
@@ -1214,6 +1224,8 @@ def judge(case, impl, model):
             if "error" not in modes.values():
                 msg = msg or (f"real {op} succeeded but the model says it raises (a container where a scalar is "
                               f"declared?) for {json.dumps(impl['shape'])[:200]}")
+        elif model.get("unknown"):
+            pass      # a site the table has no row for: the model makes no prediction (the poke oracle below still judges)
         elif sorted(a for a in model.get("shared", []) if a not in impl.get("holders", [])) != sorted(impl.get("shared", [])):
             msg = msg or (f"aliasing differs for {op}: real shares source cells {impl.get('shared')} "
                           f"(paths {impl.get('shared_paths')}), model predicts {model.get('shared')}")
@@ -1274,6 +1286,8 @@ def tags(case, impl, model):
         t.append("poke-changed:" + ("yes" if impl.get("poked") else "no"))
         if isinstance(model, dict) and "out" in model:
             t.append("model-safe-shape:" + str(model["out"].get("safe")))
+        for kc in (model.get("unknown") or (model.get("out") or {}).get("unknown") or [])[:3] if isinstance(model, dict) else []:
+            t.append("unknown-site:" + ":".join(x.split(".")[-1] for x in kc))
     if not impl.get("args_same", True):
         t.append("ARGS-MUTATED")
     return t
@@ -1479,6 +1493,8 @@ def item_witness(cat):
         # (an undeclared key holding a container: kept by reference by the inline structure on its own)
         "inline": (dict(_cls("Inl", [["x", INT], ["l", ARR_INT]], addl=True), inline=True),
                    {"m": inner_doc["m"] + [["zz", {"l": [1]}]]}, {"m": inner_doc["m"] + [["zz", {"l": [1]}]]}),
+        # a Tuple option (its value is a tuple, an immutable container) with untyped content inside
+        "tupl": ({"k": "tuplePos", "items": [{"k": "seqAny"}, INT]}, {"t": [{"l": [1, {"l": [2]}]}, 2]}, {"l": [{"l": [1, {"l": [2]}]}, 2]}),
         # (untyped content inside: a wrapper that copies generically and one that hands the value on can be told apart)
         "wrap": ({"k": "anyOf", "fields": [STR, {"k": "seqAny"}]}, {"l": [1, {"l": [2]}]}, {"l": [1, {"l": [2]}]}),
     }[cat]
@@ -1556,7 +1572,7 @@ def witness(kind, cat):
 COLL_KINDS = ["array", "deque", "set", "immSet", "tuple", "map"]
 COLL_CATS = ["number", "string", "scalar", "any", "untyped", "coll", "struct", "inline", "wrap"]
 WRAP_KINDS = ["anyOf", "oneOf", "allOf", "notF"]
-WRAP_CATS = ["number", "string", "scalar", "any", "coll", "struct", "inline", "wrap"]
+WRAP_CATS = ["number", "string", "scalar", "any", "coll", "struct", "inline", "wrap", "tupl"]
 
 
 def field_sites():
@@ -1573,8 +1589,15 @@ NOFIT = {"m": [["z", {"l": [1]}]]}       # a dict: fits neither Array[Integer] n
 
 
 ENUM_LIT = {"k": "enumLit", "values": [1, 2, "x1"]}
-MISFIT_OPTS = {"number": INT, "string": STR, "scalar": {"k": "boolean"}, "enum": ENUM_LIT,
-               "coll": {"k": "mapOf", "key": STR, "val": INT}, "inline": dict(_cls("InlM", [["x", INT]]), inline=True)}
+MAP_INT = {"k": "mapOf", "key": STR, "val": INT}
+# category of the delegated (last) option -> (option the value is stored through, stored value, delegated option)
+MISFIT_OPTS = {"number": (ARR_INT, {"l": [1, 2]}, INT), "string": (ARR_INT, {"l": [1, 2]}, STR),
+               "scalar": (ARR_INT, {"l": [1, 2]}, {"k": "boolean"}), "enum": (ARR_INT, {"l": [1, 2]}, ENUM_LIT),
+               "coll": (ARR_INT, {"l": [1, 2]}, MAP_INT),
+               "inline": (ARR_INT, {"l": [1, 2]}, dict(_cls("InlM", [["x", INT]]), inline=True)),
+               "struct": (ARR_INT, {"l": [1, 2]}, INNER),
+               "tupl": (MAP_INT, {"m": [["k", 1]]}, {"k": "tupleOf", "item": INT}),
+               "wrap": (ARR_INT, {"l": [1, 2]}, {"k": "oneOf", "fields": [STR, MAP_INT]})}
 
 
 def witness_case(op, kind, cat):
@@ -1583,9 +1606,10 @@ def witness_case(op, kind, cat):
         # reaches `<option of category cat>.serialize`
         if op not in OUTPUT_FIELD_OPS or cat not in MISFIT_OPTS:
             return None
-        d = {"k": "anyOf", "fields": [ARR_INT, copy.deepcopy(MISFIT_OPTS[cat])]}
+        first, value, last = MISFIT_OPTS[cat]
+        d = {"k": "anyOf", "fields": [copy.deepcopy(first), copy.deepcopy(last)]}
         cls = _cls(f"W_misfit_{cat}", [["f", d]])
-        base = {"suite": "alias", "cls": cls, "witness": [op, kind, cat], "pokeLimit": 120, "kw": [["f", {"l": [1, 2]}]]}
+        base = {"suite": "alias", "cls": cls, "witness": [op, kind, cat], "pokeLimit": 120, "kw": [["f", value]]}
         return dict(base, op=op, field="f") if op == "fieldSerialize" else dict(base, op=op)
     if kind in ("anyOf", "allOf") and cat == "enum":
         if op not in OUTPUT_FIELD_OPS:
@@ -1650,6 +1674,18 @@ def witness_case(op, kind, cat):
     if op == "fastSerialize":
         return dict(base, op=op, kw=kw)
     return None
+
+
+def bare_witness_case(op, cat):
+    """the option of a wrapper witness on its own (same declaration, same value, no wrapper around it): what the option
+    does by itself, to compare the wrapper's behaviour with"""
+    d, v, doc = item_witness(cat)
+    cls = _cls(f"W_bare_{cat}", [["f", copy.deepcopy(d)]])
+    base = {"suite": "alias", "cls": cls, "pokeLimit": 120}
+    kw = [["f", v]]
+    return {"construct": dict(base, op=op, kw=kw), "setattr": dict(base, op=op, kw=kw, field="f", value=v),
+            "deserialize": dict(base, op=op, doc={"m": [["f", doc]]}), "serialize": dict(base, op=op, kw=kw, via="Serializer"),
+            "fieldSerialize": dict(base, op=op, kw=kw, field="f"), "fastSerialize": dict(base, op=op, kw=kw)}.get(op)
 
 
 def directed_cases():
